@@ -66,7 +66,7 @@ Fixpoint lx (m : mode) (s : str) (line col ml : N) : list tokp :=
   | MName acc l c, [] => [mkTok (rev acc) l c false]
   | MBs l c, [] => [mkTok [92] l c false]
   | MLineC acc l c, [] => [mkTok (rev acc) l c true]
-  | MBlockC acc l c, [] => [mkTok (rev acc) l c true]     (* unterminated: pushed as it is *)
+  | MBlockC acc l c, [] => [mkTok (if ml =? 0 then rev acc else strip_nl (rev acc)) l c true]   (* unterminated: pushed; the multiline erasure still applies *)
   (* ---- inside a name / number *)
   | MName acc l c, ch :: r =>
       if is_name_char ch then lx (MName (ch :: acc) l c) r line col ml
